@@ -143,6 +143,10 @@ def make_task(chunk, tier, seed):
     return task
 
 
+from .BK_backend_ops import TRUSTED as BK_TRUSTED
+TRUSTED = TRUSTED + BK_TRUSTED
+
+
 def tasks(tier):
     import os
     seed = int(os.environ.get("VERIF_SEED", "0") or 0)
@@ -160,6 +164,10 @@ def tasks(tier):
         for nm in ("2c-different-nbins-staterror", "all-seven-types"):
             B.run_one(T, nm, dict(K.CURATED)[nm], 2)
     out.append(("batched-variant", batched))
+    # "every tensor backend": the pipeline above runs against one set of tensor-operation contracts; each backend's wrapper
+    # methods are proved to be those operations
+    from .BK_backend_ops import backend_op_tasks
+    out += backend_op_tasks(tier)
     return out
 
 
@@ -167,6 +175,9 @@ def replay(r):
     """native replay: build the concrete skeleton with the real pyhf, evaluate at seeded random parameters inside and
     outside |alpha| <= 1 and compare with the float oracle"""
     meta = r.get("meta") or {}
+    if meta.get("op") and meta.get("backend"):
+        from .BK_backend_ops import replay_backend_op
+        return replay_backend_op(r)
     name = meta.get("skeleton")
     from .hf_native import native_compare
     if name is None and ("_combined.apply" in r["name"] or "ParamViewer.get" in r["name"] or "_MainModel.expected_data" in r["name"] or "_MainModel.modifications" in r["name"]):
